@@ -32,6 +32,19 @@ Theorem C08_startup_old_schedule :
   raced (run (fork_state_new [[0]] cap0) startup_schedule) = true /\ well_scoped sc0 startup_schedule = false.
 Proof. exact startup_races. Qed.
 
+(* The next-scope cache: a Get that falls through a boundary table holds only that table's read lock, so it
+   must not store into a shared table.  As coded (cache skipped for shared tables) it never does ... *)
+Theorem C08_read_locked_lookup_writes_nothing_shared :
+  forall B S t u, In u (lookup_dirty false B S t) -> is_shared S u = false.
+Proof. exact lookup_dirty_unshared. Qed.
+
+(* ... and the variant that caches on shared tables too races (two goroutines resolving a global through
+   the captured function scope, both under its read lock), while the code as it is does not *)
+Theorem C08_cache_on_shared_refuted :
+  raced (run_pol true (fork_state_new [[0]] [1; 0]) cache_schedule) = true /\
+  raced (run_pol false (fork_state_new [[0]] [1; 0]) cache_schedule) = false.
+Proof. exact cache_on_shared_races. Qed.
+
 (* hypothesis (1) is what the repaired goByteCode establishes for a closure: the whole captured chain *)
 Theorem C08_fork_marks_captured_chain :
   forall S cap t, In t (suffixes cap) -> is_shared (fork_state_new S cap) t = true.
@@ -63,7 +76,8 @@ Proof. intros. apply sections_deterministic. assumption. Qed.
 Example C08_nonvacuous :
   let S0 := fork_state_new [[0]] cap0 in
   let il := [(P, Write cap0); (C, Read cap0); (P, Write [7; 1; 0]); (C, Write [8; 1; 0]); (C, Write cap0);
-             (C, Mark [8; 1; 0]); (P, Read [0]); (C, Read [8; 1; 0]); (P, Write cap0)] in
+             (C, Mark [8; 1; 0]); (P, Read [0]); (C, Read [8; 1; 0]); (P, Write cap0);
+             (P, Lookup cap0); (C, Lookup cap0); (C, Lookup [8; 1; 0]); (P, Lookup [7; 1; 0])] in
   let U := [cap0; [0]; [7; 1; 0]; [8; 1; 0]; []] in
   disjoint_scopes sc0 U = true /\ well_scoped sc0 il = true /\
   forallb (is_shared S0) (common sc0) = true /\ raced (run S0 il) = false /\
